@@ -70,4 +70,26 @@ deriving Repr
 
 def ISPt.sample {α : Type} (b : ISPt α) : ISSample α := ⟨b.f, b.p, ⟨b.q, b.dq⟩⟩
 
+/-! ## Conditional relaxed samples: what `csample` is meant to return
+
+`csample(b)` must be distributed as the relaxed sample given that it thresholds to `b`.  In
+reparametrised form (uniform `v`) this is a closed formula in the distribution's OWN parameters —
+the `logits` that `rsample` and `log_prob` use.  The code evaluates the formula with
+`clamp_probs(self.probs)` instead; the two agree while the clamp is inactive. -/
+section RelaxedSpec
+variable {α : Type} [Zero α] [One α] [Add α] [Sub α] [Mul α] [Div α] [Neg α] [OfNat α 2]
+  [LT α] [DecidableLT α] (T : Transc α)
+
+/-- LogisticBernoulli: `z(u)` at the uniform point of the region of `b`, written with
+`q = P(H(z) ≠ b) = σ((1 − 2b)·logits)` (no `1 − σ` cancellation): `C19_csample_spec`. -/
+def lbCsampleSpec (eps logit v b : α) : α :=
+  let q := (1 - b) * T.sigmoid logit + b * T.sigmoid (-logit)
+  (2 * b - 1) * T.log (v / ((1 - v) * q) + 1) + b * eps
+
+/-- GumbelOneHotCategorical: the code's formula with the class probabilities `exp(logits)` -/
+def gCsampleSpec (eps : α) (logits vs b : List α) : List α :=
+  gCsample T eps (logits.map T.exp) vs b
+
+end RelaxedSpec
+
 end PdtVerif.Estimators
